@@ -98,9 +98,24 @@ void fd_access(int fd, bool write) {
     for (int t = 0; t < MAXTHREADS + 2; t++) simrt::on_access((uintptr_t) &g_fd_cells[fd - FD_BASE][t], 8, false, pc);
 }
 int open_sim_fds();
+// kernel knob: the entropy system calls stop working AFTER initialisation (a seccomp filter installed later): from its
+// k-th call outside sodium_init() on, every getrandom()/getentropy() of a thread fails for good.  The library's answer
+// on the unchanged tree is sodium_misuse(); that termination is then a legitimate end of the run, not a finding.
+unsigned g_entropy_dies_after = 0; int g_entropy_dies_errno = ENOSYS;
+uint64_t g_entropy_calls_outside_init[MAXTHREADS + 2];
+uint64_t g_entropy_dead_fired = 0;
+bool entropy_dead() {
+    if (!g_entropy_dies_after) return false;
+    int s = ENV.slot();
+    if (ENV.in_init[s]) return false;
+    if (++g_entropy_calls_outside_init[s] < g_entropy_dies_after) return false;
+    g_entropy_dead_fired++;
+    return true;
+}
 ssize_t h_getrandom(void *buf, size_t n, unsigned) {
     simrt::yield_point(simrt::Y_SYSCALL, 10);
     if (g_no_getrandom) { errno = ENOSYS; return -1; }
+    if (entropy_dead()) { errno = g_entropy_dies_errno; return -1; }
     if (env_fault(1)) { g_eintr_fired++; errno = (g_eintr_fired & 1) ? EINTR : EAGAIN; return -1; }
     ENV.serve(buf, n);
     simrt::on_access((uintptr_t) buf, n, true, (uintptr_t) __builtin_return_address(0)); // the kernel writes the caller's buffer
@@ -109,6 +124,7 @@ ssize_t h_getrandom(void *buf, size_t n, unsigned) {
 int h_getentropy(void *buf, size_t n) {
     simrt::yield_point(simrt::Y_SYSCALL, 11);
     if (g_no_getrandom) { errno = ENOSYS; return -1; }
+    if (entropy_dead()) { errno = g_entropy_dies_errno; return -1; }
     ENV.serve(buf, n);
     simrt::on_access((uintptr_t) buf, n, true, (uintptr_t) __builtin_return_address(0));
     return 0;
@@ -132,7 +148,7 @@ long h_sysconf(int name) {
 }
 int h_open(const char *path, int, mode_t) {
     bool ur = !strcmp(path, "/dev/urandom"), rd = !strcmp(path, "/dev/random");
-    if (!g_no_getrandom || (!ur && !rd)) { errno = ENOENT; return -1; }
+    if ((!g_no_getrandom && !g_entropy_dies_after) || (!ur && !rd)) { errno = ENOENT; return -1; }
     simrt::yield_point(simrt::Y_SYSCALL, 14);
     for (int i = 0; i < FD_MAX; i++) if (!g_fds[i].open) { // lowest free number, like the kernel
         fd_access(FD_BASE + i, true);
@@ -253,10 +269,12 @@ int h_munlock(const void *, size_t) { return 0; }
 int h_madvise(void *, size_t, int) { return 0; }
 
 int h_raise(int sig) {
+    if (tls_tid >= 0 && g_entropy_dead_fired) simrt::fatal("entropy-failure-termination", "raise", "terminated after the entropy system calls failed");
     if (tls_tid >= 0) simrt::fatal("terminated", "raise", "the library raised signal " + std::to_string(sig) + " in thread " + std::to_string(tls_tid) + " (guarded-allocation canary mismatch or similar)");
     return simos_real_raise(sig);
 }
 void h_abort(void) {
+    if (tls_tid >= 0 && g_entropy_dead_fired) simrt::fatal("entropy-failure-termination", "abort", "sodium_misuse() after the entropy system calls failed");
     if (tls_tid >= 0) simrt::fatal("terminated", "abort", "the library called abort() in thread " + std::to_string(tls_tid));
 }
 void h_assert_fail(const char *e, const char *f, unsigned line, const char *fn) {
@@ -801,6 +819,7 @@ struct PlanT {
     bool inline_main = false;  // thread 0 is the main thread; the others come into existence when first scheduled
     bool shared_arena = false;  // all threads' caller buffers packed into one tracked block
     unsigned env_fault_pct = 0; // getrandom EINTR/EAGAIN, mlock ENOMEM (per-thread deterministic)
+    unsigned entropy_dies_after = 0; // 0 never; k: each thread's k-th and later getrandom()/getentropy() calls outside sodium_init() fail (bit 8: EPERM instead of ENOSYS)
     bool no_getrandom = false;  // kernel without getrandom()/getentropy(): the random sources read a simulated /dev/urandom
     bool sysconf_fails = false; // environment fault: sysconf(_SC_PAGESIZE) fails inside sodium_init (the library falls back to its default)
     std::vector<std::pair<uint64_t, int>> sched; // strategy "explicit": deviations (decision index, thread) from run-to-completion order
@@ -886,6 +905,8 @@ Outcome run_plan(const PlanT &p, int strategy, const std::vector<int> &seq_order
     g_sysconf_fails = p.sysconf_fails; g_sysconf_failed = 0;
     g_rl_memlock.rlim_cur = 65536; g_rl_memlock.rlim_max = RLIM_INFINITY;
     g_env_fault_pct = p.env_fault_pct; memset(g_env_calls, 0, sizeof g_env_calls); g_eintr_fired = g_mlock_refused = 0;
+    g_entropy_dies_after = p.entropy_dies_after & 0xff; g_entropy_dies_errno = (p.entropy_dies_after & 0x100) ? EPERM : ENOSYS;
+    memset(g_entropy_calls_outside_init, 0, sizeof g_entropy_calls_outside_init); g_entropy_dead_fired = 0;
     g_no_getrandom = p.no_getrandom; for (auto &f : g_fds) f = SimFd(); g_dev_reads = g_dev_opens = 0; ENV.count_fds = open_sim_fds;
     g_script_seed = mix64(p.content_seed, 0x5c21); memset(g_script_off, 0, sizeof g_script_off);
     if (p.rng == R_INTERNAL) randombytes_set_implementation(&randombytes_internal_implementation);
@@ -981,6 +1002,7 @@ struct C19 {
         p.inline_main = !p.preinit && k.chance(1, 2);
         p.sysconf_fails = k.chance(1, 8);
         p.no_getrandom = k.chance(1, 4);
+        p.entropy_dies_after = (!p.no_getrandom && p.rng != R_SCRIPTED && k.chance(1, 8)) ? (unsigned) k.range(1, 6) | (k.chance(1, 2) ? 0x100u : 0u) : 0;
         p.shared_arena = k.chance(1, 2);
         p.env_fault_pct = k.chance(1, 2) ? 0 : (unsigned) k.range(5, 40);
         size_t per_thread_max = p.nthreads > 8 ? 3 : p.nthreads > 4 ? 6 : (thorough ? 12 : 8);
@@ -1009,6 +1031,7 @@ struct C19 {
         j["knobs"] = p.pk; j["content_seed"] = p.content_seed; j["sched_seed"] = p.sched_seed; j["threads"] = p.nthreads;
         j["strategy"] = simrt::strategy_name[p.strategy]; j["pct_depth"] = p.pct_depth; j["rng"] = rng_name[p.rng]; j["preinit"] = p.preinit; j["inline_main"] = p.inline_main; j["sysconf_fails"] = p.sysconf_fails; j["env_fault_pct"] = p.env_fault_pct; j["shared_arena"] = p.shared_arena;
         j["kernel"] = p.no_getrandom ? "no_getrandom_dev_urandom" : "getrandom";
+        j["entropy_dies_after"] = p.entropy_dies_after;
         if (p.strategy == simrt::S_TRACE) {
             Json sc = Json::array();
             for (auto &d : p.sched) { Json e = Json::array(); e.push(d.first); e.push(d.second); sc.push(e); }
@@ -1029,6 +1052,7 @@ struct C19 {
         for (int i = 0; i < 3; i++) if (j.at("rng").str() == rng_name[i]) p.rng = i;
         p.preinit = j.at("preinit").boolean(); p.inline_main = j.at("inline_main").boolean(); p.sysconf_fails = j.at("sysconf_fails").boolean(); p.env_fault_pct = (unsigned) j.at("env_fault_pct").u64(); p.shared_arena = j.at("shared_arena").boolean();
         p.no_getrandom = j.at("kernel").str() == "no_getrandom_dev_urandom";
+        p.entropy_dies_after = (unsigned) j.at("entropy_dies_after").u64();
         for (auto &d : j.at("schedule_deviations").a) if (d.a.size() == 2) p.sched.push_back({d.a[0].u64(), (int) d.a[1].i64()});
         for (auto &q : j.at("ops").a) {
             Op o; o.thread = (int) q.at("t").i64();
@@ -1096,6 +1120,7 @@ struct C19 {
         if (g_eintr_fired) res.count("fault.getrandom_eintr_eagain", g_eintr_fired);
         res.count(std::string("knob.kernel=") + (p.no_getrandom ? "no_getrandom" : "getrandom"));
         if (g_dev_reads) res.count("fault.getrandom_enosys_device_reads", g_dev_reads);
+        if (g_entropy_dead_fired) res.count("fault.entropy_syscalls_dead_after_init", g_entropy_dead_fired);
         if (g_mlock_refused) res.count("fault.mlock_refused", g_mlock_refused);
         if (RT.lazily_created) res.count("probe.threads_created_when_first_scheduled", RT.lazily_created);
         if (RT.created_inside_marked) res.count("fault.thread_created_while_creator_inside_sodium_init", RT.created_inside_marked);
@@ -1115,6 +1140,12 @@ struct C19 {
         int st = 0;
         waitpid(pid, &st, 0);
 
+        if (RT.fatal_class == "entropy-failure-termination") {
+            // the run ended the only way it legitimately can once the kernel refuses entropy; races found before that
+            // moment were reported instead (whichever comes first ends the run)
+            res.count("probe.terminated_on_entropy_failure");
+            return res;
+        }
         if (!RT.fatal_class.empty()) { res.fail(RT.fatal_class, RT.fatal_locus, RT.fatal_detail, (int) RT.steps); return res; }
 
         // ---- history oracles ----
@@ -1250,6 +1281,7 @@ struct C19 {
         if (p.inline_main) { Plan c = p; c.inline_main = false; out.push_back(c); }
         if (p.sysconf_fails) { Plan c = p; c.sysconf_fails = false; out.push_back(c); }
         if (p.no_getrandom) { Plan c = p; c.no_getrandom = false; out.push_back(c); }
+        if (p.entropy_dies_after) { Plan c = p; c.entropy_dies_after = 0; out.push_back(c); }
         if (p.env_fault_pct) { Plan c = p; c.env_fault_pct = 0; out.push_back(c); }
         if (p.shared_arena) { Plan c = p; c.shared_arena = false; out.push_back(c); }
         if (p.strategy != simrt::S_TRACE && p.sched_seed > 3) for (uint64_t s = 1; s <= 3; s++) { Plan c = p; c.sched_seed = s; out.push_back(c); }
